@@ -109,6 +109,18 @@ def scenario(res, seed, tier):
     if mode != "rendezvous":
         kw["hasher"] = make_hasher(mode)
     hc = hashmod.HashClient(specs, **kw)
+    # a neighbour: another HashClient in the same process, other servers, used in between (an application with two clusters);
+    # what one client learns or stores about its servers must not leak into the other
+    nb_servers = {"nb%d:%d" % (j, 12000 + j): net.add_server("nb%d" % j, 12000 + j, RefServer(name="nb%d" % j)) for j in range(2)}
+    nb = hashmod.HashClient([("nb0", 12000), ("nb1", 12001)], socket_module=net, default_noreply=False, use_pooling=not pooling)
+
+    def neighbour_traffic():
+        for j in range(3):
+            nb.set("nb-%d" % j, b"x")
+            if nb.get("nb-%d" % j) != b"x":
+                res.violation("neighbour-client-disturbed", "a second HashClient in the same process lost its own item", seed)
+        res.count("neighbour_client_operations", 6)
+    neighbour_traffic()
     if rng.random() < 0.3:
         # a reconfiguration attempt with a malformed address fails; rotation must be unaffected
         for bad in ("10.0.0.99:1121l", ["not", "a", "spec"]):
@@ -174,6 +186,7 @@ def scenario(res, seed, tier):
         if r is not True or at != {want_wire: [owners[rk]]}:
             v("single-key-op-misrouted:set", "set(%r) -> %r; commands %r; owner %r wire %r" % (arg, r, at, owners[rk], want_wire))
             return
+    neighbour_traffic()
     # 2. multi-key get agrees with per-key gets
     if keys:
         m = marks()
@@ -289,6 +302,7 @@ def scenario(res, seed, tier):
                     return
                 if opn == "delete":
                     break
+    neighbour_traffic()
     # 4. delete_many
     if keys:
         m = marks()
@@ -337,6 +351,15 @@ def scenario(res, seed, tier):
     for n, s in servers.items():
         if s.malformed:
             v("malformed-on-wire", repr(s.malformed[0])[:100])
+        foreign = [c for c in s.cmdlog if any(k.startswith(b"nb-") for k in c.keys)]
+        if foreign:
+            v("neighbour-clients-share-state", "%s received the other HashClient's command %r" % (n, foreign[0]))
+    for n, s in nb_servers.items():
+        foreign = [c for c in s.cmdlog if any(not k.startswith(b"nb-") for k in c.keys)]
+        if foreign:
+            v("neighbour-clients-share-state", "the other HashClient's server %s received %r" % (n, foreign[0]))
+    if sorted(nb.hasher.nodes) != sorted(nb_servers):
+        v("neighbour-clients-share-state", "the other HashClient's rotation is %r" % (sorted(nb.hasher.nodes),))
     import collections
     dist = tuple(sorted(collections.Counter(owners[rk] for _, rk, _ in keys).values()))
     npairs = sum(1 for a, _, _ in keys if isinstance(a, tuple))
